@@ -2,9 +2,14 @@ package props
 
 import (
 	"fmt"
+	"os"
+	"path/filepath"
 	"regexp"
 	"strings"
 	"testing"
+
+	"github.com/xinchentechnote/fin-protoc/verifharness/inproc"
+	"github.com/xinchentechnote/fin-protoc/verifharness/xlang"
 
 	"github.com/xinchentechnote/fin-protoc/verifharness/dsl"
 	"github.com/xinchentechnote/fin-protoc/verifharness/pbt"
@@ -24,7 +29,18 @@ func evalC07(k xCase) []pbt.Violation {
 		return nil // a diagnostic instead of code is an accepted outcome for C07
 	}
 	vs := commonViolations(k, x)
-	for _, l := range k.Langs {
+	// the sixth target: the Lua script must load and run its top level under the API stub
+	if res := inproc.Compile(x.Text, []string{"lua"}); res.OK() {
+		x.Files["lua"] = res.Files["lua"]
+		dir := filepath.Join(os.Getenv("VERIF_RUNDIR"), fmt.Sprintf("c07lua-%d-%d", os.Getpid(), xSeq.Add(1)))
+		_ = os.MkdirAll(dir, 0o755)
+		lr := xlang.RunLua(k.Prog, res.Files["lua"], dir, nil)
+		os.RemoveAll(dir)
+		if lr.LoadErr != "" {
+			vs = append(vs, pbt.Violation{Signature: "lua-load:" + luaErrClass(k.Prog, lr.LoadErr), Detail: "the emitted Lua script does not load: " + clip(lr.LoadErr, 300)})
+		}
+	}
+	for _, l := range append(append([]string{}, k.Langs...), "lua") {
 		for name, b := range x.Files[l] {
 			for ln, line := range strings.Split(string(b), "\n") {
 				if m := markerRe.FindString(line); m != "" {
@@ -44,6 +60,11 @@ func evalC07(k xCase) []pbt.Violation {
 		// a missing encode/decode step shows as a byte/dump mismatch on a default message
 		for i := range k.Msgs {
 			e, d := lr.Enc[0][i], lr.Dec[0][i]
+			if !e.OK {
+				vs = append(vs, pbt.Violation{Signature: "step-fails:enc:" + l + ":" + errClass(e.Err), Detail: fmt.Sprintf("%s: encoding a message of %s fails: %s", l, k.Msgs[i].Packet, clip(e.Err, 200))})
+			} else if !d.OK {
+				vs = append(vs, pbt.Violation{Signature: "step-fails:dec:" + l + ":" + errClass(d.Err), Detail: fmt.Sprintf("%s: decoding the declared encoding of %s fails: %s", l, k.Msgs[i].Packet, clip(d.Err, 200))})
+			}
 			if e.OK && d.OK && (d.Dump != x.Ref[i].Canon[0]) {
 				cls, dd := dumpDiff(k.Prog, k.Prog.PacketByName(k.Msgs[i].Packet), d.Dump, x.Ref[i].Canon[0])
 				vs = append(vs, pbt.Violation{Signature: "step-missing:" + l + ":" + cls, Detail: fmt.Sprintf("%s: a declared field is not carried through decode: %s", l, dd)})
@@ -56,11 +77,11 @@ func evalC07(k xCase) []pbt.Violation {
 func TestC07(t *testing.T) {
 	runXProp(t, xProp{id: "C07",
 		rule: "well-formed programs including every identifier shape for packet and field names (UpperCamel, lowerCamel, snake_case, ALLCAPS, acronym runs such as ClOrdID, digits, underscores), fields whose names differ from their types, packets referenced before their declaration and empty packets, under all option configurations. When the in-process compile reports no diagnostics: (a) the emitted files of each codec language, including the emitted self-tests, must be accepted by the real toolchain against the stand-in runtime API (go build + test compile, rustc lib + --test, javac main + test, Python import of module and test module, g++ on header and test file); (b) a generated driver that names every declared packet type and every declared member at its declaration-site spelling must build, and a default message must survive decode (missing member or step); (c) no emitted file contains placeholder text ('not supported', 'unsupport', 'unknow', 'TODO', '-- ' lines outside Lua). A diagnostic with no files is an accepted outcome. Non-trivial = >= 2 packets or a composite member, and at least one non-canonical identifier shape; distinct = hash of (program, languages); evaluations = (language, message) cells.",
-		eval: evalC07, tests: true,
+		eval: evalC07, tests: true, viaCLI: true,
 		cfg: func(rt *rapid.T, avoid map[string]bool) (dsl.GenCfg, int, dsl.ValCfg, bool) {
 			c, _, v, _ := defaultXCfg(rt, avoid)
 			c.Shapes = !avoid["shapes"] && rapid.IntRange(0, 2).Draw(rt, "shapes") > 0
-			return c, 1, v, false
+			return c, 3, v, false
 		},
 		nontrivial: func(k xCase) bool { return len(k.Prog.Packets) >= 2 },
 		assume:     []string{"the driver refers to members by the name used at their declaration site in each language (computed with the same strcase v0.3.0 conversions)"},
